@@ -126,11 +126,11 @@ class RemoteSched:
             self.send(("count", "gc_collect", 1))
         self._rpc(("point", kind, detail))
 
-    def lock_acquire(self, uid, name, block=True):
+    def lock_acquire(self, uid, name, block=True, timeout=None):
         if self.unwinding:
-            self.send(("lock_acquire_unwinding", uid, name, block))
+            self.send(("lock_acquire_unwinding", uid, name, block, timeout))
             return self._wait()[1]
-        return self._rpc(("lock_acquire", uid, name, block))
+        return self._rpc(("lock_acquire", uid, name, block, timeout))
 
     def lock_release(self, uid, name):
         self.send(("lock_release", uid, name))
